@@ -79,6 +79,7 @@ def impl : Impl State where
   sendHeader := sendHeader
   setTrailer := setTrailer
   preSend := beforeData
+  xfer := fun g _ m _ => (g, m)   -- SendMsg serialises the message: the receiver decodes those bytes
   close := writeStatus
   abort := reset
   header := header
